@@ -3,6 +3,8 @@ package main
 import (
 	"context"
 	"fmt"
+	"regexp"
+	"sort"
 	"time"
 
 	"github.com/jig/lisp/types"
@@ -67,9 +69,55 @@ func effEqual(a, b []Node) bool {
 	return true
 }
 
+var gensymRE = regexp.MustCompile(`^G__[0-9]+$`)
+
+// canonGensyms renames generated symbols G__n by order of first appearance, so that
+// expansions are compared up to the state of the (shared) gensym counter.
+func canonGensyms(nodes ...*Node) {
+	names := map[string]string{}
+	var walk func(n *Node)
+	walk = func(n *Node) {
+		if n.T == "sym" && gensymRE.MatchString(n.S) {
+			if _, ok := names[n.S]; !ok {
+				names[n.S] = fmt.Sprintf("G__#%d", len(names)+1)
+			}
+			n.S = names[n.S]
+		}
+		for i := range n.Xs {
+			walk(&n.Xs[i])
+		}
+		if n.T == "map" {
+			keys := make([]string, 0, len(n.M))
+			for k := range n.M {
+				keys = append(keys, k)
+			}
+			sort.Strings(keys)
+			for _, k := range keys {
+				v := n.M[k]
+				walk(&v)
+				n.M[k] = v
+			}
+		}
+	}
+	for _, n := range nodes {
+		walk(n)
+	}
+}
+
+func canonOutcome(v *Node, eff []Node) {
+	ptrs := []*Node{}
+	for i := range eff {
+		ptrs = append(ptrs, &eff[i])
+	}
+	ptrs = append(ptrs, v)
+	canonGensyms(ptrs...)
+}
+
 // judgeProg compares an observation with the allowed outcome of the definition layer.
 func judgeProg(c *Case, obs Obs) Verdict {
 	al := c.Allow
+	canonOutcome(&al.V, al.Eff)
+	canonOutcome(&obs.V, obs.Eff)
 	v := Verdict{Obs: obs, Class: al.K}
 	sig := c.Sig
 	if sig == "" {
